@@ -261,7 +261,7 @@ pub fn property() -> Property {
         subchecks: vec![
             SubCheck {
                 name: "histories",
-                driver: Driver::Generated { gen: gen_walk_case, genome_len: 320, quick: 40_000, thorough: 2_000_000 },
+                driver: Driver::Generated { gen: gen_walk_case, genome_len: 320, quick: 250_000, thorough: 5_000_000 },
                 check: history_check,
                 configs: Configs::Both,
                 required: &["special_move", "capture", "undo_interleaved", "null_move", "castling_right", "ep_mark"],
@@ -270,7 +270,7 @@ pub fn property() -> Property {
             },
             SubCheck {
                 name: "undo_histories",
-                driver: Driver::Generated { gen: gen_walk_case, genome_len: 320, quick: 30_000, thorough: 1_500_000 },
+                driver: Driver::Generated { gen: gen_walk_case, genome_len: 320, quick: 200_000, thorough: 4_000_000 },
                 check: undo_history_check,
                 configs: Configs::Both,
                 required: &["undo_checked", "illegal_rollback"],
@@ -279,7 +279,7 @@ pub fn property() -> Property {
             },
             SubCheck {
                 name: "transpositions",
-                driver: Driver::Generated { gen: gen_transposition_case, genome_len: 200, quick: 60_000, thorough: 3_000_000 },
+                driver: Driver::Generated { gen: gen_transposition_case, genome_len: 200, quick: 400_000, thorough: 8_000_000 },
                 check: transposition_check,
                 configs: Configs::ReleaseOnly,
                 required: &["transposition", "counters_changed"],
